@@ -245,6 +245,7 @@ func init() {
 		"sort.Strings": func(c *FnCtx, f *ssa.Function, a []Val, rt types.Type, pos token.Pos) (Val, bool) {
 			c.usedExtern("sort.Strings")
 			row := c.freshConst("sorted", "(Array Int Str)")
+			c.permutationFacts(row, fmt.Sprintf("(select %s (s_ref %s))", c.H(c.strSliceHeap()), a[0].T), a[0].T)
 			c.setH(c.strSliceHeap(), fmt.Sprintf("(store %s (s_ref %s) %s)", c.H(c.strSliceHeap()), a[0].T, row))
 			return Val{S: "Tuple"}, true
 		},
@@ -328,6 +329,7 @@ func init() {
 				c.E.noteCallbackPanics(c, cb)
 			}
 			row := c.freshConst("sorted", Sort("(Array Int "+string(es)+")"))
+			c.permutationFacts(row, fmt.Sprintf("(select %s (s_ref %s))", c.H(hn), a[0].T), a[0].T)
 			c.setH(hn, fmt.Sprintf("(store %s (s_ref %s) %s)", c.H(hn), a[0].T, row))
 			return Val{S: "Tuple"}, true
 		}
@@ -383,4 +385,54 @@ func (c *FnCtx) splitModel(s, sep, n string) Val {
 func (c *FnCtx) strSliceHeap() string {
 	hn, _ := c.M.SliceHeap(types.Typ[types.String])
 	return hn
+}
+
+// permutationFacts: ASSUMED contract of the sort functions — the sorted row is a permutation of the
+// old one on the slice's window, and untouched elsewhere.
+func (c *FnCtx) permutationFacts(newRow, oldRow, sl string) {
+	c.fresh++
+	p := fmt.Sprintf("perm!%d", c.fresh)
+	q := fmt.Sprintf("perminv!%d", c.fresh)
+	c.declareFun(p, []Sort{SInt}, SInt)
+	c.declareFun(q, []Sort{SInt}, SInt)
+	lo := fmt.Sprintf("(s_off %s)", sl)
+	hi := fmt.Sprintf("(+ (s_off %s) (s_len %s))", sl, sl)
+	c.fact(fmt.Sprintf("(forall ((i Int)) (! (=> (and (<= %s i) (< i %s)) (and (<= %s (%s i)) (< (%s i) %s) (= (select %s i) (select %s (%s i))))) :pattern ((select %s i))))", lo, hi, lo, p, p, hi, newRow, oldRow, p, newRow))
+	c.fact(fmt.Sprintf("(forall ((j Int)) (! (=> (and (<= %s j) (< j %s)) (and (<= %s (%s j)) (< (%s j) %s) (= (select %s (%s j)) (select %s j)))) :pattern ((select %s j))))", lo, hi, lo, q, q, hi, newRow, q, oldRow, oldRow))
+	c.fact(fmt.Sprintf("(forall ((i Int)) (! (=> (or (< i %s) (>= i %s)) (= (select %s i) (select %s i))) :pattern ((select %s i))))", lo, hi, newRow, oldRow, newRow))
+}
+
+func init() {
+	for _, n := range []string{"maps.Keys", "golang.org/x/exp/maps.Keys"} {
+		externModels[n] = func(c *FnCtx, f *ssa.Function, a []Val, rt types.Type, pos token.Pos) (Val, bool) {
+			c.usedExtern("maps.Keys returns a fresh slice holding exactly the keys of the map")
+			mt, ok := types.Unalias(f.Params[0].Type()).Underlying().(*types.Map)
+			if !ok {
+				return Val{}, false
+			}
+			_, dn, ks, _, _ := c.M.MapHeaps(mt)
+			st, ok := types.Unalias(rt).Underlying().(*types.Slice)
+			if !ok {
+				return Val{}, false
+			}
+			hn, es := c.M.SliceHeap(st.Elem())
+			if es != ks {
+				return Val{}, false
+			}
+			r := c.allocRef("keys")
+			row := c.freshConst("keysrow", Sort("(Array Int "+string(es)+")"))
+			n := c.freshConst("nkeys", SInt)
+			c.fresh++
+			ix := fmt.Sprintf("keyidx!%d", c.fresh)
+			c.declareFun(ix, []Sort{ks}, SInt)
+			d := fmt.Sprintf("(select %s %s)", c.H(dn), a[0].T)
+			c.fact(fmt.Sprintf("(and (>= %s 0) (=> (= %s 0) (= %s 0)))", n, a[0].T, n))
+			c.fact(fmt.Sprintf("(forall ((i Int)) (! (=> (and (<= 0 i) (< i %s)) (and (not (= %s 0)) (select %s (select %s i)))) :pattern ((select %s i))))", n, a[0].T, d, row, row))
+			c.fact(fmt.Sprintf("(forall ((k %s)) (! (=> (and (not (= %s 0)) (select %s k)) (and (<= 0 (%s k)) (< (%s k) %s) (= (select %s (%s k)) k))) :pattern ((select %s k))))", ks, a[0].T, d, ix, ix, n, row, ix, d))
+			c.setH(hn, fmt.Sprintf("(store %s %s %s)", c.H(hn), r, row))
+			res := c.freshConst("keys", SSlice)
+			c.fact(fmt.Sprintf("(= %s (mk_slice %s 0 %s %s))", res, r, n, n))
+			return Val{T: res, S: SSlice, GT: rt}, true
+		}
+	}
 }
